@@ -439,6 +439,36 @@ def run(ctx):
             ctx.count("wrong_kind_after_legal")
         ctx.case(("wrong-kind-after-legal",), nontrivial=True)
 
+    # ---------------- the wrong front end over the SHAPES of the wrong argument: lists and tuples of k equally shaped series for
+    # every k around the window size (k = W - 1, W, W + 1: where a 3-d coercion of the list would stack to zero / one / few
+    # windows), ragged lists, a list of one; and a 2-d array of every orientation for the joint front end
+    if ctx.replay is None:
+        r_w = pyrandom.Random(ctx.seed + 2020)
+        base_arr = np.array(series[0][:max(12, min(40, series[0].shape[0]))], copy=True)
+        for W_ in ((2, 3, 4) if ctx.quick() else (2, 3, 4, 5, 7, 10)):
+            for k_ in sorted({1, 2, W_ - 1, W_, W_ + 1} - {0}):
+                for mk in (list, tuple):
+                    arg = mk(np.array(base_arr, copy=True) for _ in range(k_))
+                    kq2 = dict(kw, window_size=W_, iteration_limit=2)
+                    try:
+                        tu.seed_all(cfg["seed"])
+                        with tu.quiet(), warnings.catch_warnings():
+                            warnings.simplefilter("ignore")
+                            fast_ticc.ticc_labels(arg, **kq2)
+                        ctx.violation("impl-violation", f"ticc_labels given a {mk.__name__} of {k_} equally shaped series (window {W_}) "
+                                      "returned a result instead of raising", {"cfg": cfg, "scenario": "wrong-shapes", "k": k_, "W": W_},
+                                      {"site": "fault-swallowed"})
+                    except TypeError as e:
+                        if "ticc_joint_labels" not in str(e):
+                            ctx.violation("impl-violation", f"ticc_labels given a {mk.__name__} of {k_} series: TypeError does not name "
+                                          f"ticc_joint_labels: {e}", {"cfg": cfg, "k": k_, "W": W_}, {"site": "wrong-exception"})
+                    except Exception as e:
+                        ctx.violation("impl-violation", f"ticc_labels given a {mk.__name__} of {k_} equally shaped series (window {W_}): expected "
+                                      f"TypeError naming ticc_joint_labels, got {type(e).__name__}: {str(e)[:120]}",
+                                      {"cfg": cfg, "scenario": "wrong-shapes", "k": k_, "W": W_}, {"site": "wrong-exception"})
+                    ctx.count("wrong_front_end_shapes")
+        ctx.case(("wrong-front-end-shapes",), nontrivial=True)
+
     # ---------------- documented argument errors of the helpers: each surfaces as the exception the code names, none
     # returns a value (these are the error branches the runs above never enter)
     if ctx.replay is None:
